@@ -55,6 +55,11 @@ class GhostCursor(object):
         ctx.effect(kind, q, args)
         self.last = (kind, q, args)
         self.conn.statements.append((kind, q, args))
+        if kind != "executescript" and str(q).lstrip()[:7].upper().startswith(("INSERT", "UPDATE", "DELETE", "REPLACE")):
+            self.conn._dml_pending = True
+        if not hasattr(self.conn, "cursors_used"):
+            self.conn.cursors_used = []
+        self.conn.cursors_used.append(self)          # which cursor object ran the statement (a cursor that executes again drops its pending rows)
         return q
 
     def execute(self, query, args=()):
@@ -141,15 +146,31 @@ class GhostConn(object):
         self.row_factory = None
         self.text_factory = str
         self.commits = 0
+        self._dml_pending = False
+        self._pending_at_entry = None
+
+    @property
+    def in_transaction(self):
+        """sqlite3.Connection.in_transaction: True after a data-changing statement until commit / rollback; at the entry of
+        the function under verification the caller may or may not have uncommitted work - an unknown boolean"""
+        if self._dml_pending:
+            return True
+        if self._pending_at_entry is None:
+            from .core import SBool
+            c = Ctx.current
+            self._pending_at_entry = SBool(c.fresh_bool("conn.in_transaction@entry")) if c is not None else False
+        return self._pending_at_entry
 
     def cursor(self):
         return GhostCursor(self)
 
     def commit(self):
+        self._dml_pending, self._pending_at_entry = False, False
         Ctx.current.effect("commit")
         self.commits += 1
 
     def rollback(self):
+        self._dml_pending, self._pending_at_entry = False, False
         Ctx.current.effect("rollback")
 
     def close(self):
